@@ -152,6 +152,7 @@ def run(prog: Program, res: Result, tier: str) -> None:
     else:
         res.ok("R-GEO", inst, fi.loc())
     check_symmetry(prog, res)
+    check_planar_equivariance(prog, res)
     check_stero_from_geometry(prog, res)
     res.trusted += ["transfer functions of sa/geo.py for the numpy idioms "
                     "used (row re-indexing, differences, cross, dot / einsum "
@@ -244,6 +245,53 @@ def check_symmetry(prog: Program, res: Result) -> None:
     else:
         res.error("R-GEO-SYM: symmetrisation idiom of are_planar not "
                   "recognised")
+
+
+def check_planar_equivariance(prog: Program, res: Result) -> None:
+    """Swapping the two substituents of one end must flip the sign of the
+    orientation test (the perceived PlanarBond then re-orders accordingly):
+    the test vectors must be the differences of the two substituents of the
+    same end."""
+    res.rule("R-EQUIVARIANT", "the cis/trans test of _planar_bond_from_coords "
+             "is sign(dot(c0 - c1, c4 - c5)): each vector is antisymmetric in "
+             "the two substituents of one end, so renumbering the atoms "
+             "changes the descriptor only by a symmetry-equivalent ordering")
+    fi = prog.fn(f"{XYZ}:_planar_bond_from_coords")
+    from ..core import DefUse
+    du = DefUse(fi.node)
+    dots = [n for n in ast.walk(fi.node) if isinstance(n, ast.Call)
+            and call_name(n) in ("np.dot", "np.vdot", "np.inner")
+            and len(n.args) == 2]
+    inst = "_planar_bond_from_coords: orientation vectors pair the substituents of each end"
+    if not dots:
+        res.unrecognised("R-EQUIVARIANT", inst, fi.loc(), "no dot product")
+        return
+    pairs = []
+    for a in dots[0].args:
+        idx = set()
+        for d in du.dep_nodes(a):
+            for n in ast.walk(d):
+                if isinstance(n, ast.BinOp) and isinstance(n.op, ast.Sub):
+                    for side in (n.left, n.right):
+                        if isinstance(side, ast.Subscript) and norm(
+                                side.value) == "coords" and isinstance(
+                                side.slice, ast.Constant):
+                            idx.add(side.slice.value)
+        pairs.append(frozenset(idx))
+    want = {frozenset({0, 1}), frozenset({4, 5})}
+    if set(pairs) == want:
+        res.ok("R-EQUIVARIANT", inst, fi.loc(dots[0]))
+    elif all(len(p) >= 2 for p in pairs):
+        res.bad("R-EQUIVARIANT", f"_planar_bond_from_coords vectors "
+                f"{sorted(map(sorted, pairs))}", fi.loc(dots[0]),
+                f"{inst}: the vectors are built from positions "
+                f"{sorted(map(sorted, pairs))} instead of (0,1) and (4,5); "
+                "swapping the two substituents of one end no longer just "
+                "flips the sign, so the perceived descriptor depends on the "
+                "numbering of the atoms (strained rings)", instance=inst)
+    else:
+        res.unrecognised("R-EQUIVARIANT", inst, fi.loc(dots[0]),
+                         f"vector index sets {pairs}")
 
 
 def check_stero_from_geometry(prog: Program, res: Result) -> None:
